@@ -18,6 +18,7 @@ type verifDesc struct {
 	isBytes    bool
 	isFunc     bool
 	hasMap     bool
+	hasFloat   bool
 	newObj     func() interface{}
 	anyObj     func(d int) interface{}
 	anyObjJ    func(d int) interface{}
@@ -211,6 +212,16 @@ func verifH_C04(d *verifDesc) {
 	verifAssert(err == nil, "tl1-rewrite-ok")
 	if err != nil {
 		return
+	}
+	// the value decoded from the TL1 bytes and the value decoded from the TL2 bytes have identical JSON (types with float leaves:
+	// strconv's float formatting of a symbolic float is outside the engine's reach, see C34 for the float writers)
+	if d.hasJSON && !d.hasFloat && verifParam("json4", 1) == 1 {
+		j1, e1 := verifWriteJSON(v.(verifJSON))
+		j2, e2 := verifWriteJSON(v2.(verifJSON))
+		verifAssert((e1 == nil) == (e2 == nil), "json-writability-same-from-tl1-and-tl2")
+		if e1 == nil && e2 == nil {
+			verifAssert(verifBytesEq(j1, j2), "json-identical-from-tl1-and-tl2")
+		}
 	}
 	if d.hasMap {
 		w0, _ := verifWriteTL1(v, boxed)
